@@ -41,6 +41,7 @@ def run(prog, rep, tier):
     r9_2(prog, rep, dm)
     r9_3(prog, rep)
     r9_4(prog, rep)
+    r9_5(prog, rep)
     rep.floor("R9.1", 4)
     rep.floor("R9.2", 5)
     rep.floor("R9.4", 12)
@@ -241,6 +242,41 @@ def r9_2(prog, rep, dm):
     obl(rep, dm, early[0] if early else dm.node, "R9.2", not early, "design_matrices evaluates no term before the row filter")
 
 
+NUMERIC_PATH = ("utils.get_interaction_matrix", "terms.terms.Term.set_data", "terms.terms.Term.eval_new_data",
+                "terms.variable.Variable.eval_numeric", "terms.variable.Variable.eval_new_data_numeric",
+                "terms.call.Call.eval_numeric", "terms.call.Call.eval_new_data_numeric",
+                "terms.terms.GroupSpecificTerm.set_data", "terms.terms.GroupSpecificTerm.eval_new_data",
+                "terms.call_resolver.LazyVariable.eval", "terms.call_resolver.LazyOperator.eval")
+NAN_MASKING = ("np.nan_to_num", "np.select", "np.choose", "np.putmask", "np.place", "np.nanprod", "np.nansum", "np.nanmean", "np.fmax", "np.fmin",
+               "np.nanmax", "np.nanmin", "np.isnan", "np.isfinite", "pd.isna", "pd.isnull", "pd.notna")
+NAN_MASKING_METHODS = ("fillna", "dropna", "interpolate", "ffill", "bfill", "isna", "isnull", "notna")
+
+
+def r9_5(prog, rep):
+    """'pass': a missing numeric value is NaN in exactly the columns derived from it.  Necessary structural part: on the path a
+    numeric value takes into its columns (variable -> term -> interaction product -> group block) nothing tests for, replaces
+    or skips missing values, and the interaction combinator stacks plain products (NaN * anything = NaN)."""
+    from .. import order as O
+
+    gim = prog.fn("utils.get_interaction_matrix")
+    O.pairwise_major(gim)
+    kind, etxt = getattr(gim, "_pairwise_element", ("product", "matrix product form"))
+    obl(rep, gim, gim.node, "R9.5", kind == "product", "interaction columns are plain products: a NaN in a factor is a NaN in every column derived from it",
+        etxt, f"the stacked element is `{etxt}`: a data-dependent selection replaces the product, so NaN * 0 (missing numeric value in a "
+        "row whose dummy is 0) is written as a number - under na_action='pass' the incomplete row no longer carries NaN in all the "
+        "columns derived from its missing variable")
+    for q in NUMERIC_PATH:
+        f = prog.fn(q)
+        hits = []
+        for c in calls_in(f.node, local=False):
+            d = dotted(c.func) or ""
+            if d in NAN_MASKING or (isinstance(c.func, ast.Attribute) and c.func.attr in NAN_MASKING_METHODS):
+                hits.append(c)
+        obl(rep, f, hits[0] if hits else f.node, "R9.5", not hits, f"{q.split('.', 1)[1]}: no test for / replacement of missing values on the numeric path",
+            "", "; ".join(f"`{short(h, 60)}`" for h in hits) + ": missing values are tested for or replaced while a numeric value is turned into "
+            "its columns; under 'pass' NaN must reach exactly the columns derived from the missing variable")
+
+
 def r9_3(prog, rep):
     from . import C17
 
@@ -255,6 +291,103 @@ def r9_3(prog, rep):
 
 def _reads(fn, expr):
     return any(unparse(n) == expr for n in ast.walk(fn.node))
+
+
+SET_MUTATORS = ("update", "add", "discard", "remove", "clear", "pop", "difference_update", "intersection_update", "symmetric_difference_update")
+
+
+def _var_names_not_mutated(prog, rep, rule):
+    """the set of used variables is recomputed on every call: an in-place update of a `<object>.var_names` result is harmless
+    only while every implementation of var_names hands out a set of its own (a shared one would accumulate the variables of
+    other terms, other designs - their missing values would then filter rows of a formula that does not mention them)"""
+    from .. import dataflow as DF
+
+    impls = {}   # class qual -> 'fresh' | reason it is not
+    for cq, cls in sorted(prog.classes.items()):
+        if "var_names" in cls.class_attrs:
+            impls[cq] = f"`{cls.name}.var_names` is a class attribute (`{short(cls.class_attrs['var_names'], 30)}`): one object shared by every instance"
+            continue
+        m = cls.methods.get("var_names")
+        if m is None:
+            continue
+        impls[cq] = m
+    FRESH_CALLS = ("set", "frozenset", "sorted", "list")
+
+    def fresh(e, f, seen):
+        """the value of e is a set no other object holds"""
+        if isinstance(e, (ast.Set, ast.SetComp)):
+            return True, ""
+        if isinstance(e, ast.Call):
+            d = dotted(e.func) or ""
+            if d in FRESH_CALLS:
+                return True, ""
+            if isinstance(e.func, ast.Attribute) and e.func.attr in ("copy", "union", "intersection", "difference", "symmetric_difference"):
+                return True, ""
+        if isinstance(e, ast.BinOp) and isinstance(e.op, (ast.BitOr, ast.BitAnd, ast.Sub, ast.BitXor)):
+            return True, ""
+        if isinstance(e, ast.Attribute) and e.attr == "var_names":
+            for cq, m in impls.items():
+                if isinstance(m, str):
+                    return False, m
+                if m.qual in seen:
+                    continue
+                rets = [n for n in walk_local(m.node) if isinstance(n, ast.Return) and n.value is not None]
+                if not rets:
+                    return False, f"{m.qual} has no return"
+                for r_ in rets:
+                    ok, why = fresh(r_.value, m, seen | {m.qual})
+                    if not ok:
+                        return False, why
+            return True, ""
+        if isinstance(e, ast.Name):
+            defs = [st_.value for st_ in walk_local(f.node) if isinstance(st_, ast.Assign) and len(st_.targets) == 1
+                    and isinstance(st_.targets[0], ast.Name) and st_.targets[0].id == e.id]
+            if not defs:
+                return False, f"`{e.id}` is not created in {f.qual}"
+            for d_ in defs:
+                ok, why = fresh(d_, f, seen)
+                if not ok:
+                    return False, why
+            return True, ""
+        if isinstance(e, ast.IfExp):
+            for arm in (e.body, e.orelse):
+                ok, why = fresh(arm, f, seen)
+                if not ok:
+                    return False, why
+            return True, ""
+        return False, f"`{short(e, 40)}` is held by another object"
+
+    n = 0
+    for q, f in sorted(prog.functions.items()):
+        touches = any(isinstance(x, ast.Attribute) and x.attr == "var_names" for x in ast.walk(f.node)) or f.name == "var_names"
+        if not touches:
+            continue
+        for node, target, kind, _root in DF.inplace_sites(f):
+            if not (kind in ("augmented assignment",) or kind.strip(".()") in SET_MUTATORS):
+                continue
+            base = target
+            while isinstance(base, ast.Subscript):
+                base = base.value
+            # only sets that (may) come from a var_names read
+            src = base
+            if isinstance(base, ast.Name):
+                defs = [st_.value for st_ in walk_local(f.node) if isinstance(st_, ast.Assign) and len(st_.targets) == 1
+                        and isinstance(st_.targets[0], ast.Name) and st_.targets[0].id == base.id]
+                if not any(isinstance(x, ast.Attribute) and x.attr == "var_names" for d_ in defs for x in ast.walk(d_)) and f.name != "var_names":
+                    continue
+            elif not (isinstance(base, ast.Attribute) and base.attr == "var_names"):
+                continue
+            n += 1
+            ok, why = fresh(src, f, frozenset())
+            obl(rep, f, node, rule, ok, f"`{short(node, 60)}` updates a set of its own", kind,
+                f"in-place update ({kind}) of a set of used variables that is not created here: {why}. The names of one term end up in a "
+                "set that other terms, later calls and other designs read: columns the formula does not mention are then selected and "
+                "their missing values drop (or reject) rows")
+    for cq, m in impls.items():
+        if isinstance(m, str):
+            cls = prog.classes[cq]
+            rep.check(True, rule, cls.where, cq, "var_names as a class attribute", m, nontrivial=False)
+    return n
 
 
 def r9_4(prog, rep, rule="R9.4"):
@@ -301,6 +434,7 @@ def r9_4(prog, rep, rule="R9.4"):
     rets = [n for n in walk_local(cv.node) if isinstance(n, ast.Return)]
     obl(rep, cv, cv.node, rule, len(rets) == 1 and unparse(rets[0].value) == "set(CallVarsExtractor(self).get())",
         "Call.var_names walks the call tree with CallVarsExtractor")
+    _var_names_not_mutated(prog, rep, rule)
     # visitor coverage, from the inferred field types
     te = TypeEngine(prog)
     ext = prog.cls("terms.call_utils.CallVarsExtractor")
